@@ -10,7 +10,7 @@ Engine D (flow-sensitive may-alias + mutation summaries over the call graph, num
 import ast
 
 from ..astutil import short
-from ..effects import CONT, MEM, OBJ, CMEM, Effects, is_arraylike
+from ..effects import CONT, MEM, OBJ, CMEM, LSTORE, Effects, is_arraylike
 from ..program import AnalysisIncomplete, Ext, Func, Partial, norm
 
 # (module, function): (raster params, category)
@@ -217,6 +217,29 @@ def attr_source(scope, v, field):
     return None
 
 
+_DASK_FUNCS = {}
+
+
+def dask_funcs(prog):
+    """ids of the functions bound to a dask slot of some backend table (they receive dask arrays)"""
+    if id(prog) not in _DASK_FUNCS:
+        from ..backends import _backend_paths
+        out = set()
+        for f in prog.all_funcs():
+            if f.is_lambda or f.module.name.startswith('xrspatial.gpu_rtx'):
+                continue
+            try:
+                paths = _backend_paths(prog, f)
+            except AnalysisIncomplete:
+                continue
+            for path in paths:
+                g = path.func()
+                if path.backend == 'dask' and g is not None:
+                    out.add(id(g))
+        _DASK_FUNCS[id(prog)] = out
+    return _DASK_FUNCS[id(prog)]
+
+
 def check(prog, rep):
     eff = Effects(prog)
     n = 0
@@ -255,6 +278,16 @@ def check(prog, rep):
                 rep.add('P1', o.func, entry, '%s: %s' % (p, norm(o.node)[:200]), o.node.lineno, False,
                         'input raster `%s` is modified: %s (reached from %s at line %s)'
                         % (p, o.kind[:150], entry, e.node.lineno))
+            # stores into a plain `astype` of the raster made by a function that receives dask arrays
+            for e in [e_ for e_ in s.events if e_.root == ('param', p) and e_.level == LSTORE]:
+                o = origin_event(e)
+                if id(o.func) in dask_funcs(prog) and (norm(o.node)[:160], 'lstore') not in reported:
+                    reported.add((norm(o.node)[:160], 'lstore'))
+                    bad += 1
+                    rep.add('P1', o.func, entry, '%s: %s' % (p, norm(o.node)[:200]), o.node.lineno, False,
+                            'input raster `%s` is modified on the dask path: `astype` of a dask array that already has the dtype is the '
+                            'array itself, and a masked store rewrites that object, which is the caller\'s `.data` (%s, reached from %s '
+                            'at line %s); NumPy\'s astype copies, so the numpy twin of this code is harmless' % (p, o.kind[:120], entry, e.node.lineno))
             if not bad:
                 rep.add('P1', f, entry, 'input `%s`: no write reaches it' % p, f.node.lineno, True)
         # ---------------- P2
